@@ -11,7 +11,7 @@ RULE = ('BFS engine: for every estimator class and data type, breadth-first sear
         '{data=, NFFT=, sampling=, window=, lag=, detrend=, scale_by_freq=, sides=, ar_order=, ma_order=, obj(), read psd}; canonical state = '
         'complete vars(obj) (private fields, cache, flags, Range object); in every distinct state a disposable rebuild is probed: psd must equal '
         'the psd of a fresh object constructed with the same final attribute values (converted to the same sides), df == sampling/NFFT, '
-        'len(frequencies()) == len(psd), and re-assigning each attribute its current value must leave psd bit-identical.  '
+        'len(frequencies()) == len(psd), and re-assigning each attribute its current value must leave psd unchanged (1e-13).  '
         'Distinct/non-trivial = distinct digests of the psd vectors read in distinct states')
 ASSUMPTIONS = ['fresh-object oracle: the first psd read of a newly constructed, never-computed object is taken as the definition of the estimate for its attribute values '
                '(the numerical correctness of that estimate is the business of C01-C05, C08-C19)',
@@ -306,7 +306,7 @@ def eval_point(pt, R):
         except Exception as e:
             R.viol('idempotent', dict(feats, attr=a, exc=type(e).__name__), pt, repr(e), None, 're-assigning an unchanged value raised')
             continue
-        R.check(v0.shape == v1.shape and np.array_equal(v0, v1), 'idempotent', dict(feats, attr=a), pt, v1, v0,
+        R.check(v0.shape == v1.shape and close(v1, v0, 1e-13, 0.0), 'idempotent', dict(feats, attr=a), pt, v1, v0,
                 're-assigning %s its current value changed psd' % a)
 
 
